@@ -5,6 +5,8 @@ import (
 	"expvar"
 	"sync"
 	"time"
+
+	"github.com/rqlite/rqlite/v10/internal/vhook"
 )
 
 // stats captures stats for the Queue.
@@ -142,6 +144,7 @@ func (q *Queue[T]) Write(objects []T, c FlushChannel) (int64, error) {
 	q.seqMu.Lock()
 	defer q.seqMu.Unlock()
 	q.seqNum++
+	vhook.Trace(q, "q.write", "seq", q.seqNum, "objs", objects, "fc", c != nil)
 
 	q.batchCh <- &queuedObjects[T]{
 		SequenceNumber: q.seqNum,
@@ -202,6 +205,7 @@ func (q *Queue[T]) run() {
 		// implicitly to the other side of sendCh.
 		req := mergeQueued(qObjs)
 		if req != nil {
+			vhook.Trace(q, "q.sending", "seq", req.SequenceNumber, "n", len(req.Objects), "nw", len(qObjs))
 			q.sendCh <- req
 			stats.Add(numObjectsTx, int64(len(req.Objects)))
 			qObjs = qObjs[:0] // Better on the GC than setting to nil.
@@ -212,6 +216,7 @@ func (q *Queue[T]) run() {
 		select {
 		case s := <-q.batchCh:
 			if s == nil { // flush marker
+				vhook.Trace(q, "q.recvflush")
 				stats.Add(numFlush, 1)
 				stopTimer(timer)
 				writeFn()
@@ -219,6 +224,7 @@ func (q *Queue[T]) run() {
 			}
 
 			qObjs = append(qObjs, s)
+			vhook.Trace(q, "q.recv", "seq", s.SequenceNumber)
 			if len(qObjs) == 1 {
 				if q.timeout != 0 {
 					// First item in queue, start the timer so that if
@@ -231,6 +237,7 @@ func (q *Queue[T]) run() {
 				writeFn()
 			}
 		case <-timer.C:
+			vhook.Trace(q, "q.timer")
 			stats.Add(numTimeout, 1)
 			q.numTimeouts++
 			writeFn()
